@@ -58,6 +58,9 @@ FOREIGN_POOL = [
     # C declarations whose comments (copied from Rust docs) or guarded blocks merely MENTION C++ constructs: the header is still a C header
     "/**\n * A growable list. C++ users see `template<typename T> struct Vec`,\n * e.g. `using CounterList = Vec<Counter>`.\n */\ntypedef struct CounterVec {\n    uint32_t *data;\n    uintptr_t len;\n} CounterVec;\n",
     "#ifdef __cplusplus\n  #include <cstdint>\n#endif\n",
+    # documentation copied from Rust sources is UTF-8: units, typographic quotes, names, other scripts
+    "/**\n * One temperature sample in °C (resolution ±0.5 °C, drift ≤ 2 µV/K) — “cold” below −40 °C.\n */\ntypedef struct Reading {\n    double celsius;\n    uint64_t micros;\n} Reading;\n",
+    "/**\n * Фильтр усреднения (naïve или Kálmán); 平均フィルタ.\n */\ntypedef enum FilterMode {\n    FilterMode_Naive,\n    FilterMode_Kalman,\n} FilterMode;\n",
 ]
 FOREIGN_CTX = "/**\n * A user type whose name ends like a context-generic struct.\n */\ntypedef struct Widget_Context {\n    int32_t depth;\n} Widget_Context;\n"
 FOREIGN_FNS = ["int32_t user_drop(struct Pair *p);\n", "void ctx_arc_clone_all(void);\n", "uint32_t settings_flags(const struct Settings *s);\n"]
@@ -68,6 +71,8 @@ FOREIGN_CPP = [
     "struct ContainerPool {\n    Pair *items;\n    uintptr_t len;\n};\n",
     "using UserFn = int32_t(*)(const Pair *cont, int32_t x);\n",
     "/**\n * Doc comment of a user struct.\n */\nstruct Settings {\n    uint32_t flags;\n    const char *name;\n};\n",
+    "/**\n * One temperature sample in °C (resolution ±0.5 °C, drift ≤ 2 µV/K) — “cold” below −40 °C.\n */\nstruct Reading {\n    double celsius;\n    uint64_t micros;\n};\n",
+    "/**\n * Фильтр усреднения (naïve или Kálmán); 平均フィルタ.\n */\nenum class FilterMode {\n    Naive,\n    Kalman,\n};\n",
 ]
 RUNS = 3
 
@@ -415,6 +420,20 @@ def gen_cases(rng, tier):
         dist["contexts>=2"] += 1 if len(contexts_of(api)) >= 2 else 0
         dist["generic_ctx"] += 1 if api["generic_ctx"] else 0
         dist["foreign_blocks"] += len(foreign) + len(api["foreign_fns"])
+    # fixed: non-ASCII documentation in foreign declarations, in a header whose first `MaybeUninit<` (a RetTmp slot) comes before them
+    for k in range(3):
+        r = rng.fork("utf8-%d" % k)
+        api = B.gen_api(r, "small")
+        api["groups"] = []
+        api["traits"][0]["rettmp"] = True
+        api["objects"] = [{"trait": 0, "inner": "Box", "ctx": "Arc"}, {"trait": 0, "inner": "Box", "ctx": "None"}]
+        api["generic_ctx"] = False
+        api["foreign"] = [f for f in FOREIGN_POOL if "Reading" in f or "FilterMode" in f or "Settings" in f]
+        api["foreign_pos"] = sorted(r.below(12) for _ in api["foreign"])
+        api["foreign_fns"] = []
+        api["foreign_cpp"] = [f for f in FOREIGN_CPP if "Reading" in f or "FilterMode" in f]
+        lines.append(B.api_line(api, str(ordered()), 118))
+        dist["header_cases"] += 1
     for i in range(n):
         mal = (i % 8 == 7)
         lines.append(cli_case(rng.fork("cli%d" % i), mal))
